@@ -50,22 +50,75 @@ class _Continue(Exception):
 NAN = "nan"
 
 
+_AUTO = object()
+_M0 = frozenset()
+_M1 = frozenset([()])
+NEUTRAL_TAGS = ("grid", "x")
+MONO_CAP = 4000
+
+
+def _mono_arith(op, a, b):
+    ma, mb = a.mono, b.mono
+    if ma is None or mb is None:
+        return None
+    if op in ("+", "-"):
+        return ma | mb
+    if op == "*":
+        if ma == _M1:
+            return mb
+        if mb == _M1:
+            return ma
+        if len(ma) * len(mb) > MONO_CAP:
+            return None
+        return frozenset(tuple(sorted(x + y)) for x in ma for y in mb)
+    if op == "/":
+        return ma if mb <= _M1 and mb else None
+    return None
+
+
 class Sc:
-    """Scalar of the spline's data type in the product domain (value x dependence):
+    """Scalar of the spline's data type in the product domain (value x dependence x affine form):
        v    exact value / rank when it is known (constants, grid points, their exact combinations),
             NAN for the IEEE 'unordered' value, None when value-dependent (opaque);
-       deps the set of input atoms the value was computed from (dependence analysis)."""
-    __slots__ = ("v", "deps")
+       deps the set of input atoms the value was computed from (dependence analysis);
+       lin  the value as an affine form  sum q_i * atom_i + q_0  over the opaque input atoms with exact rational
+            coefficients ({atom: q, None: q_0}), or None once it is not affine (product of two non-constant values,
+            division by a non-constant).  `pure` is False when a scaling constant was not a literal (it came from
+            grid points / the abscissa): such forms hold for the representative grid only and are never asserted."""
+    __slots__ = ("v", "deps", "lin", "pure", "mono")
 
-    def __init__(self, v, deps=frozenset()):
+    def __init__(self, v, deps=frozenset(), lin=_AUTO, pure=None, mono=_AUTO):
         self.v = v if (v is None or v == NAN) else Fraction(v)
         self.deps = deps if isinstance(deps, frozenset) else frozenset(deps)
+        known = self.v is not None and self.v != NAN
+        if lin is _AUTO:
+            lin = {None: self.v} if known else None
+        self.lin = lin
+        self.pure = (not self.deps) if pure is None else pure
+        if mono is _AUTO:
+            # term structure: the set of products of opaque inputs the value is a sum of (coefficients ignored;
+            # grid points and abscissae are neutral factors).  A known constant is the empty product (or no term
+            # at all when it is exactly zero); None = unknown.
+            mono = (_M0 if self.v == 0 else _M1) if known else None
+        self.mono = mono
+
+    @staticmethod
+    def atom(a, v=None):
+        """An opaque input named `a` (optionally with a known value for comparisons)."""
+        return Sc(v, frozenset([a]), lin={a: Fraction(1)}, pure=True,
+                  mono=_M1 if a[0] in NEUTRAL_TAGS else frozenset([(a,)]))
 
     def __repr__(self):
         return "Sc(%s%s)" % (self.v, (";" + ",".join(sorted(map(str, self.deps)))) if self.deps else "")
 
     def copy(self):
         return self
+
+    def form(self):
+        """Affine form without zero terms (None if not affine or not asserted)."""
+        if self.lin is None or not self.pure:
+            return None
+        return {k: q for k, q in self.lin.items() if q != 0}
 
 
 def sc_cmp(op, a, b):
@@ -77,20 +130,70 @@ def sc_cmp(op, a, b):
             "!=": a.v != b.v}[op]
 
 
+def _lin_const(l):
+    """The constant an affine form denotes, or None if it has atom terms."""
+    if l is None:
+        return None
+    c = Fraction(0)
+    for k, q in l.items():
+        if k is None:
+            c = q
+        elif q != 0:
+            return None
+    return c
+
+
+def _lin_arith(op, a, b):
+    la, lb = a.lin, b.lin
+    if la is None or lb is None:
+        return None, True
+    pure = a.pure and b.pure
+    if op in ("+", "-"):
+        out = dict(la)
+        sgn = 1 if op == "+" else -1
+        for k, q in lb.items():
+            out[k] = out.get(k, 0) + sgn * q
+        return out, pure
+    if op == "*":
+        ca, cb = _lin_const(la), _lin_const(lb)
+        if ca is not None:
+            return {k: q * ca for k, q in lb.items()}, pure and not a.deps
+        if cb is not None:
+            return {k: q * cb for k, q in la.items()}, pure and not b.deps
+        return None, True
+    if op == "/":
+        cb = _lin_const(lb)
+        if cb is None or cb == 0:
+            return None, True
+        return {k: q / cb for k, q in la.items()}, pure and not b.deps
+    return None, True
+
+
 def sc_arith(op, a, b):
     deps = a.deps | b.deps
-    if a.v is None or b.v is None or a.v == NAN or b.v == NAN:
-        return Sc(NAN if (a.v == NAN or b.v == NAN) else None, deps)
+    if a.v == NAN or b.v == NAN:
+        return Sc(NAN, deps, lin=None, mono=None)
+    if op == "/" and a is b and a.v is None:
+        return Sc(1)   # the very same (opaque, non-zero) value divided by itself
+    lin, pure = _lin_arith(op, a, b)
+    mono = _mono_arith(op, a, b)
+    if a.v is None or b.v is None:
+        v = None
+        if lin is not None:
+            c = _lin_const(lin)
+            if c is not None:
+                v = c          # all atom terms cancelled (a - a): the value is a known constant
+        return Sc(v, deps, lin=lin, pure=pure, mono=mono)
     if op == "+":
-        return Sc(a.v + b.v, deps)
+        return Sc(a.v + b.v, deps, lin=lin, pure=pure, mono=mono)
     if op == "-":
-        return Sc(a.v - b.v, deps)
+        return Sc(a.v - b.v, deps, lin=lin, pure=pure, mono=mono)
     if op == "*":
-        return Sc(a.v * b.v, deps)
+        return Sc(a.v * b.v, deps, lin=lin, pure=pure, mono=mono)
     if op == "/":
         if b.v == 0:
-            return Sc(None, deps)  # inf / nan: value no longer tracked
-        return Sc(a.v / b.v, deps)
+            return Sc(None, deps, lin=None, mono=None)  # inf / nan: value no longer tracked
+        return Sc(a.v / b.v, deps, lin=lin, pure=pure, mono=mono)
     raise OutOfFragment("scalar operator %s" % op)
 
 
@@ -747,12 +850,33 @@ class Interp:
             return Arr(items)
         if len(items) == 1:
             return items[0]
+        if not items:
+            if self.is_scalar_type(t):
+                return Sc(0)
+            if int_type(t):
+                return 0
+            return self.default_value(t)
         raise OutOfFragment("initializer list of type %s" % t)
 
     def ev_ImplicitValueInitExpr(self, e):
-        t = self.T(e)
+        t = self.T(e).replace("const ", "").strip()
         if int_type(t):
             return 0
+        if self.is_scalar_type(t):
+            return Sc(0)
+        import re as _re
+        m = _re.match(r"(.+)\[(\d+)\]$", t)
+        if m:
+            et, n = m.group(1).strip(), int(m.group(2))
+            if self.is_scalar_type(et):
+                return Arr([Sc(0)] * n)
+            if int_type(et):
+                return Arr([0] * n)
+        if t.startswith("std::array<"):
+            n = int(t.rstrip(">").rsplit(",", 1)[1].strip().rstrip("UL"))
+            et = t[len("std::array<"):].rsplit(",", 1)[0].strip()
+            if self.is_scalar_type(et):
+                return Arr([Sc(0)] * n)
         raise OutOfFragment("value-init of %s" % t)
 
     def ev_CXXScalarValueInitExpr(self, e):
@@ -868,7 +992,7 @@ class Interp:
             if isinstance(v, int):
                 return fit(-v, int_type(self.T(e)))
             if isinstance(v, Sc):
-                return Sc(-v.v, v.deps) if v.v not in (NAN, None) else v
+                return sc_arith("*", Sc(-1), v)
             raise OutOfFragment("negation of %r" % (v,))
         if op == "+":
             return self.rv(c)
@@ -1500,14 +1624,14 @@ class Interp:
                 # Gauss-Legendre quadrature of a callable over [a, b]: the result is built from the integrand's
                 # values at nodes inside [a, b] (dependence model; Boost's tables are constants)
                 fn, a_, b_ = V[0], V[1], V[2]
-                x = Sc(None, a_.deps | b_.deps)
+                x = Sc(None, a_.deps | b_.deps, lin=None, mono=_M1)
                 if not isinstance(fn, Closure):
                     raise OutOfFragment("integrand is not a lambda")
                 ff = self.func(fn.callop)
                 r = val(self.call(ff, fn, [box(x)]))
                 if not isinstance(r, Sc):
                     raise OutOfFragment("integrand value %r" % (r,))
-                return Sc(None, r.deps | a_.deps | b_.deps)
+                return Sc(None, r.deps | a_.deps | b_.deps, lin=None, mono=r.mono)
             if base in ("std::begin", "std::cbegin"):
                 return Iter(V[0], 0)
             if base in ("std::end", "std::cend"):
